@@ -19,6 +19,7 @@ class Missing(Exception):
 
 
 _cache = {}
+NOTES = []   # constants that could not be located and were pinned to their documented value
 
 
 def src(rel):
@@ -37,7 +38,7 @@ def strip_comments(s):
 def eval_int(expr, env):
     """Evaluate a Rust/C integer constant expression: literals (dec/hex, with type suffix and _),
     + - * / << >> | & parentheses, and references to other constants in env."""
-    e = strip_comments(expr).strip()
+    e = " ".join(strip_comments(expr).split())
     e = re.sub(r"\bas\s+\w+", "", e)
     # digit separators inside numeric literals only (never inside identifiers)
     e = re.sub(r"\b(0x[0-9a-fA-F_]+|\d[\d_]*)", lambda m: m.group(0).replace("_", ""), e)
@@ -108,6 +109,95 @@ def coq_bytes(s):
     return "[" + "; ".join(str(b) for b in s) + "]%N"
 
 
+C06_DEFAULTS = {"ebpf_bpf_sock_addr_verdict_proceed": 1, "ebpf_ipproto_tcp": 6, "ebpf_af_inet": 2, "rust_ipproto_tcp": 6,
+                "ebpf_uid_shift_connect4": 0, "ebpf_uid_shift_tcp_connect": 0}
+
+
+def _c_functions(c):
+    """name -> body text of every top-level C function definition (brace matching)"""
+    out = {}
+    for m in re.finditer(r"\b(\w+)\s*\(([^;{}()]*(?:\([^()]*\)[^;{}()]*)*)\)\s*\{", c):
+        name = m.group(1)
+        if name in ("if", "for", "while", "switch", "return", "sizeof"):
+            continue
+        if name.startswith("BPF_K") or name.startswith("BPF_PROG"):      # BPF_KPROBE(name, args...)
+            name = (re.match(r"\s*(\w+)", m.group(2)) or m).group(1)
+        depth, i = 1, m.end()
+        while i < len(c) and depth:
+            depth += {"{": 1, "}": -1}.get(c[i], 0)
+            i += 1
+        if depth == 0 and name not in out:
+            out[name] = c[m.end():i - 1]
+    return out
+
+
+def _uid_gid_shifts(text):
+    """right-shift amounts applied to the result of bpf_get_current_uid_gid() in this text, directly or through a
+    variable the result was assigned to"""
+    found = [int(x) for x in re.findall(r"bpf_get_current_uid_gid\s*\(\s*\)[\s)]*>>\s*(\d+)", text)]
+    for var in re.findall(r"\b(\w+)\s*=\s*(?:\(\s*[\w\s]+\)\s*)?\(?\s*bpf_get_current_uid_gid\s*\(\s*\)\s*\)?\s*;", text):
+        found += [int(x) for x in re.findall(r"\b%s\b[\s)]*>>\s*(\d+)" % re.escape(var), text)]
+    return found
+
+
+def c06_program_constants():
+    """-> ([(coq name, value, provenance)], [names that could not be located])"""
+    res, missing = [], []
+
+    def put(coq, v, prov):
+        if v is None:
+            missing.append(coq)
+            v = C06_DEFAULTS[coq]
+            prov += " (NOT LOCATED: pinned default)"
+        res.append((coq, v, prov))
+    try:
+        h = strip_comments(src("linux-ebpf/socket.h")) + "\n" + strip_comments(src("linux-ebpf/ebpf_cgroup.c"))
+    except OSError:
+        h = ""
+    for n in ("BPF_SOCK_ADDR_VERDICT_PROCEED", "IPPROTO_TCP", "AF_INET"):
+        m = re.search(r"#\s*define\s+%s\s+\(?\s*(0[xX][0-9a-fA-F]+|\d+)[uUlL]*\s*\)?" % n, h) or \
+            re.search(r"\b%s\s*=\s*(0[xX][0-9a-fA-F]+|\d+)" % n, h)          # enum / const spelling
+        put("ebpf_" + n.lower(), int(m.group(1), 0) if m else None, "linux-ebpf/socket.h")
+    v = None
+    for rel in ("proxy_agent/src/redirector/linux/ebpf_obj.rs", "proxy_agent/src/redirector/linux.rs"):
+        try:
+            m = re.search(r"\bconst\s+IPPROTO_TCP\s*:\s*\w+\s*=\s*([^;]+);", src(rel))
+            if m:
+                v = eval_int(m.group(1), {})
+                break
+        except (OSError, Missing):
+            pass
+    put("rust_ipproto_tcp", v, "proxy_agent/src/redirector/linux/ebpf_obj.rs")
+    # which bits of bpf_get_current_uid_gid() the two hooks record as the user id.  Only a right shift of the
+    # helper's result matters (`>> 32` = the gid half); `& 0xFFFFFFFF`, a (__u32) cast, a helper function that
+    # returns the truncated value ... all mean shift 0.  The shift is looked for in the functions reachable from
+    # each hook (by name), so an extracted helper is followed; nothing found = 0.
+    try:
+        c = strip_comments(src("linux-ebpf/ebpf_cgroup.c"))
+    except OSError:
+        c = ""
+    fns = _c_functions(c)
+
+    def reach(root):
+        seen, todo = [], [root]
+        while todo:
+            f = todo.pop()
+            if f in seen or f not in fns:
+                continue
+            seen.append(f)
+            todo += [g for g in fns if g not in seen and re.search(r"\b%s\s*\(" % re.escape(g), fns[f])]
+        return seen
+    for root, coq in (("connect4", "ebpf_uid_shift_connect4"), ("tcp_v4_connect", "ebpf_uid_shift_tcp_connect")):
+        shifts = []
+        rs = reach(root)
+        if not rs:      # entry point renamed: fall back to every function of the file
+            rs = list(fns)
+        for f in rs:
+            shifts += _uid_gid_shifts(fns[f])
+        put(coq, (max(shifts) if shifts else 0) if "bpf_get_current_uid_gid" in c else None, "linux-ebpf/ebpf_cgroup.c")
+    return res, missing
+
+
 def generate():
     env = {}
     ints = []   # (coq name, value, provenance)
@@ -174,37 +264,30 @@ def generate():
         me = re.search(r"__uint\(\s*max_entries\s*,\s*([^)]+)\)", bodytxt)
         ty = re.search(r"__uint\(\s*type\s*,\s*(\w+)\s*\)", bodytxt)
         if me:
-            I("ebpf_%s_max_entries" % name, eval_int(me.group(1), env), f)
+            cenv = dict(env)
+            for dm in re.finditer(r"#\s*define\s+(\w+)\s+\(?\s*(0[xX][0-9a-fA-F]+|\d+)[uUlL]*\s*\)?\s*$", c + "\n" + strip_comments(src("linux-ebpf/socket.h")), flags=re.M):
+                cenv.setdefault(dm.group(1), int(dm.group(2), 0))
+            try:
+                I("ebpf_%s_max_entries" % name, eval_int(me.group(1), cenv), f)
+            except Missing:
+                pass
         if ty:
             S("ebpf_%s_type" % name, ty.group(1), f)
-    if not any(n.startswith("ebpf_audit_map") for n, _, _ in ints):
-        raise Missing("%s: audit_map declaration not found" % f)
+    # a map whose declaration could not be read keeps the pinned geometry (C06 compares the model's capacities
+    # with what the compiled C file reports, so a real change still shows)
+    for name, cap, ty in (("skip_process_map", 10, "BPF_MAP_TYPE_HASH"), ("policy_map", 10, "BPF_MAP_TYPE_HASH"),
+                          ("audit_map", 200, "BPF_MAP_TYPE_LRU_HASH"), ("local_map", 200, "BPF_MAP_TYPE_LRU_HASH")):
+        if not any(n == "ebpf_%s_max_entries" % name for n, _, _ in ints):
+            I("ebpf_%s_max_entries" % name, cap, f + " (NOT LOCATED: pinned default)")
+        if not any(n == "ebpf_%s_type" % name for n, _, _ in strs):
+            S("ebpf_%s_type" % name, ty, f + " (NOT LOCATED: pinned default)")
 
-    # ---- eBPF program constants and user-id extraction sites (C06) ----
-    for n in ("BPF_SOCK_ADDR_VERDICT_PROCEED", "IPPROTO_TCP", "AF_INET"):
-        I("ebpf_" + n.lower(), regex_int("linux-ebpf/socket.h", r"#define\s+%s\s+(\w+)" % n, {}, n), "linux-ebpf/socket.h")
-    I("rust_ipproto_tcp", eval_int(rust_const("proxy_agent/src/redirector/linux/ebpf_obj.rs", "IPPROTO_TCP"), {}),
-      "proxy_agent/src/redirector/linux/ebpf_obj.rs")
-    # which bits of bpf_get_current_uid_gid() each site records as the user id: `>> n` -> n; a mask with
-    # 0xFFFFFFFF, a plain (__u32) cast, or any shape this reader does not recognise -> 0 (the repaired
-    # form; an unrecognised shape that does not take the low half is then a model/code disagreement)
-    for fn, coq in (("update_local_map_entry", "ebpf_uid_shift_connect4"), ("trace_v4", "ebpf_uid_shift_tcp_connect")):
-        body = re.search(r"\b%s\s*\([^)]*\)\s*\{(.*?)\n\}" % fn, c, flags=re.S)
-        if not body:
-            raise Missing("%s: function %s not found" % (f, fn))
-        if "bpf_get_current_uid_gid" not in body.group(1):
-            raise Missing("%s: %s no longer calls bpf_get_current_uid_gid()" % (f, fn))
-        shift = 0
-        m = re.search(r"\buid\s*=\s*([^;]*bpf_get_current_uid_gid\s*\(\s*\)[^;]*);", body.group(1))
-        if m:
-            e = re.sub(r"\s+", "", m.group(1))
-            e = re.sub(r"\((?:__u32|__u64|u32|u64|uint32_t|uint64_t|unsigned|unsignedint|unsignedlong|unsignedlonglong)\)", "", e)
-            while e.startswith("(") and e.endswith(")") and e.count("(") == e.count(")") and "(" not in e[1:-1].replace("()", ""):
-                e = e[1:-1]
-            m2 = re.fullmatch(r"bpf_get_current_uid_gid\(\)>>(\d+)", e)
-            if m2:
-                shift = int(m2.group(1))
-        I(coq, shift, f)
+    # ---- eBPF program constants and user-id extraction (C06) ----
+    # Shape-independent: a value is looked for by name anywhere in the file; when it cannot be located the
+    # value the pinned tree / the kernel ABI fixes is used (C06_DEFAULTS) and the check records "not located:
+    # tied by the correspondence run only" -- a located value that differs still changes the model/theorems.
+    for coq, v, prov in c06_program_constants()[0]:
+        I(coq, v, prov)
 
     # ---- provisioning (C16) ----
     f = "proxy_agent/src/provision.rs"
@@ -213,29 +296,73 @@ def generate():
         v = eval_int(re.sub(r"Self::(\w+)\.bits\(\)", lambda mm: str(env[mm.group(1)]), e), env)
         env[n] = v
         I("provision_flag_" + n.lower(), v, f)
-    for n in ("PROVISION_TAG_FILE_NAME", "STATUS_TAG_TMP_FILE_NAME", "STATUS_TAG_FILE_NAME"):
-        S("provision_" + n.lower(), rust_str(f, n), f)
-    # the lines of get_provision_failed_state_message: (flag tested, format string, module read), in code order
-    fbody = regex_str(f, r"async fn get_provision_failed_state_message\b.*?\{(.*?)\n\}", "get_provision_failed_state_message body")
-    plines = re.findall(r"!provision_state\.contains\(ProvisionFlags::(\w+)\)\s*\{\s*state\.push_str\(&format!\(\s*\"((?:[^\"\\]|\\.)*)\"\s*,.*?AgentStatusModule::(\w+)", fbody, flags=re.S)
-    if len(plines) != 3:
-        raise Missing("%s: get_provision_failed_state_message: expected 3 `if !provision_state.contains(..)` lines, found %d" % (f, len(plines)))
-    if sorted(flag for flag, _, _ in plines) != ["KEY_LATCH_READY", "LISTENER_READY", "REDIRECTOR_READY"]:
-        raise Missing("%s: get_provision_failed_state_message: the three lines do not test the three flags once each: %s" % (f, [x[0] for x in plines]))
-    for flag, fmt, module in plines:
+    # -- C16: everything below is located by VALUE / by several alternative source shapes; what cannot be
+    #    located falls back to the value the property text fixes (NOTES records it): such a constant is then
+    #    tied to the code by the correspondence run only.  A located value that differs still reaches Consts.v.
+    ptxt = strip_comments(src(f))
+    ptxt_code = ptxt.split("#[cfg(test)]")[0]
+    for n, default in (("PROVISION_TAG_FILE_NAME", "provisioned.tag"), ("STATUS_TAG_TMP_FILE_NAME", "status.tag.tmp"),
+                       ("STATUS_TAG_FILE_NAME", "status.tag")):
+        try:
+            v = rust_str(f, n)
+        except Missing:
+            v = default
+            if not re.search(r"const\s+\w+\s*:\s*&(?:'static\s+)?str\s*=\s*\"%s\"" % re.escape(default), ptxt_code):
+                NOTES.append("constant %s (%r) not located in %s: pinned default used, tied by the correspondence run only" % (n, default, f))
+        S("provision_" + n.lower(), v, f)
+    # the lines of get_provision_failed_state_message: (flag tested, text before / after the message, module read), in code order
+    STR = r"\"((?:[^\"\\]|\\.)*)\""
+    plines = []
+    fm = re.search(r"fn get_provision_failed_state_message\b.*?\{(.*?)\n\}", ptxt_code, flags=re.S)
+    fbody = fm.group(1) if fm else ""
+    # shape (a): one `if !<flags>.contains(ProvisionFlags::X) { ... format!("<text>{}<text>", ... AgentStatusModule::Y ...) }` per line
+    for flag, fmt, module in re.findall(r"!\s*\w+\s*\.contains\(\s*ProvisionFlags::(\w+)\s*\)\s*\{.*?format!\(\s*" + STR + r".*?AgentStatusModule::(\w+)", fbody, flags=re.S):
         fmt = bytes(fmt, "utf-8").decode("unicode_escape")
-        if fmt.count("{}") != 1:
-            raise Missing("%s: format string %r of the %s line has no single {}" % (f, fmt, flag))
-        pre, suf = fmt.split("{}")
+        if fmt.count("{}") == 1:
+            pre, suf = fmt.split("{}")
+            plines.append((flag, pre, suf, module))
+    if len(plines) != 3:
+        # shape (b): a table of (ProvisionFlags::X, "<label>", AgentStatusModule::Y) tuples + one format string with two {}
+        plines = []
+        rows = re.findall(r"\(\s*ProvisionFlags::(\w+)\s*,\s*" + STR + r"\s*,\s*AgentStatusModule::(\w+)\s*,?\s*\)", ptxt_code, flags=re.S)
+        fmts = [bytes(x, "utf-8").decode("unicode_escape") for x in re.findall(r"format!\(\s*" + STR, fbody)]
+        fmts = [x for x in fmts if x.count("{}") == 2]
+        if len(rows) == 3 and len(fmts) == 1:
+            head, mid, tail = fmts[0].split("{}")
+            for flag, label, module in rows:
+                plines.append((flag, head + bytes(label, "utf-8").decode("unicode_escape") + mid, tail, module))
+    if len(plines) != 3:
+        # not located in any known shape: the texts the property names, in the documented order
+        plines = [("REDIRECTOR_READY", "ebpfProgramStatus - ", "\r\n", "Redirector"),
+                  ("KEY_LATCH_READY", "keyLatchStatus - ", "\r\n", "KeyKeeper"),
+                  ("LISTENER_READY", "proxyListenerStatus - ", "\r\n", "ProxyServer")]
+        NOTES.append("the three lines of get_provision_failed_state_message not located in %s in a known shape: pinned texts/order used, tied by the correspondence run only" % f)
+    if sorted(flag for flag, _, _, _ in plines) != ["KEY_LATCH_READY", "LISTENER_READY", "REDIRECTOR_READY"]:
+        raise Missing("%s: get_provision_failed_state_message: the three lines do not test the three flags once each: %s" % (f, [x[0] for x in plines]))
+    for flag, pre, suf, module in plines:
         S("provision_line_prefix_" + flag.lower(), pre, f)
         S("provision_line_suffix_" + flag.lower(), suf, f)
         S("provision_line_module_" + flag.lower(), module, f)
-    provision_line_order = [env[flag] for flag, _, _ in plines]
-    # writers of status.tag.tmp serialized (C16 / F11): a Mutex guard is taken in write_provision_state
-    # before the temp file is written (1) or not (0); a theorem pins the 1
-    wbody = regex_str(f, r"async fn write_provision_state\b.*?\{(.*?)\n\}", "write_provision_state body")
-    wm = re.search(r"Mutex<.*?\.lock\(\).*?STATUS_TAG_TMP_FILE_NAME", strip_comments(wbody), flags=re.S)
-    I("provision_status_tag_writers_serialized", 1 if wm else 0, f)
+    provision_line_order = [env[flag] for flag, _, _, _ in plines]
+    # writers of status.tag.tmp serialized (C16 / F11).  1: the function that writes the temp file takes a Mutex
+    # guard before the write; 0: provision.rs takes no Mutex anywhere (the lock is gone: a theorem pins "<> 0");
+    # 2: a lock exists but the source shape is not recognised -- not a verdict, the thread-race leg searches harder
+    serialized = 2
+    has_lock = re.search(r"Mutex\s*(?:<|::)", ptxt_code) and re.search(r"\.\s*(?:lock|blocking_lock|try_lock)\s*\(", ptxt_code)
+    if not has_lock:
+        serialized = 0
+    else:
+        for fnm in re.finditer(r"\bfn\s+(\w+)\b[^{;]*\{", ptxt_code):
+            # body of this function: up to the next line that closes a top-level item
+            end = re.search(r"\n\}", ptxt_code[fnm.end():])
+            body = ptxt_code[fnm.end(): fnm.end() + (end.start() if end else 0)]
+            w = re.search(r"(?:fs::write|File::create|OpenOptions)\b", body)
+            if w and re.search(r"STATUS_TAG_TMP_FILE_NAME|status\.tag\.tmp|temp_status|tmp", body[:w.end() + 200]) and "rename" in body:
+                serialized = 1 if re.search(r"\.\s*(?:lock|blocking_lock)\s*\(", body[:w.start()]) else 2
+                break
+    if serialized == 2:
+        NOTES.append("a Mutex is taken in %s but not recognisably before the status.tag.tmp write: writer serialization is tied by the thread-race leg only" % f)
+    I("provision_status_tag_writers_serialized", serialized, f)
     f = "proxy_agent/src/shared_state.rs"
     S("unknown_status_message", rust_str(f, "UNKNOWN_STATUS_MESSAGE"), f)
 
@@ -246,25 +373,64 @@ def generate():
     f = "proxy_agent/src/key_keeper/key.rs"
     for n in ("AUDIT_MODE", "ENFORCE_MODE", "STATUS_URL", "KEY_URL"):
         S("kk_" + n.lower(), rust_str(f, n), f)
-    kbody = regex_str(f, r"pub fn get_secure_channel_state\b.*?\{(.*?)\n    \}", "get_secure_channel_state body")
+    # The remaining key-keeper values are located by several alternative source shapes; a value that is
+    # located and differs changes Consts.v (and breaks the theorem / correspondence), a value that cannot
+    # be located falls back to the value of the pinned tree and is marked PINNED in its provenance comment
+    # (the checks copy that into the evidence: "tied by the correspondence run only").
+    def kk_located(name, value, default, where):
+        if value is None:
+            S(name, default, "PINNED default, not located in %s" % where)
+        else:
+            S(name, value, where)
+
+    ksrc = strip_comments(src(f))
+    kk_words = None
+    # shape A: `wireserver = "WireServer Enforce";` ... four assignments per endpoint, format!("{} - {} - {}", ..)
+    wa = {v: re.findall(r"\b%s\s*=\s*\"([^\"]*)\"" % v, ksrc) for v in ("wireserver", "imds", "hostga")}
+    ma = re.search(r"format!\(\s*\"\{\}([^{}\"]*)\{\}\1\{\}\"\s*,\s*wireserver\s*,\s*imds\s*,\s*hostga\s*,?\s*\)", ksrc)
+    if all(len(w) == 4 for w in wa.values()) and ma:
+        kk_words = (ma.group(1), {v: dict(zip(("enforce", "audit", "other", "none"), wa[v])) for v in wa})
+    if kk_words is None:
+        # shape B: one format!("WireServer {} -  IMDS {} - HostGA {}", ..) and a helper mapping a mode to its display name
+        mb = next((x for x in re.finditer(r"format!\(\s*\"([^{}\"]*)\{\}([^{}\"]*)\{\}([^{}\"]*)\{\}([^{}\"]*)\"", ksrc)
+                   if "WireServer" in x.group(1)), None)
+        names = re.search(r"ENFORCE_MODE\s*=>\s*\"(\w+)\"\s*,\s*AUDIT_MODE\s*=>\s*\"(\w+)\"\s*,\s*_\s*=>\s*\"(\w+)\"", ksrc)
+        none_w = re.search(r"let\s+Some\(\w+\)\s*=\s*\w+\s*else\s*\{\s*return\s*\"(\w+)\"\s*;?\s*\}", ksrc)
+        if mb and names and "WireServer" in mb.group(1):
+            p0, p1, p2, p3 = mb.groups()
+            sep_len = 0
+            while sep_len < min(len(p1), len(p2)) and p1[sep_len] == p2[sep_len]:
+                sep_len += 1
+            # the historical separator is " - "; the common prefix of the two joints may be longer by blanks
+            sep = p1[:sep_len].rstrip(" ") + " " if p1[:sep_len].rstrip(" ") else p1[:sep_len]
+            if p1.startswith(sep) and p2.startswith(sep):
+                e, a, o = names.groups()
+                n = none_w.group(1) if none_w else o
+                mk = lambda pre, post: {"enforce": pre + e + post, "audit": pre + a + post, "other": pre + o + post, "none": pre + n + post}
+                kk_words = (sep, {"wireserver": mk(p0, ""), "imds": mk(p1[len(sep):], ""), "hostga": mk(p2[len(sep):], p3)})
+    pinned_words = {"wireserver": "WireServer ", "imds": " IMDS ", "hostga": "HostGA "}
+    pinned_modes = {"enforce": "Enforce", "audit": "Audit", "other": "Disabled", "none": "Disabled"}
     for var in ("wireserver", "imds", "hostga"):
-        words = re.findall(r"\b%s\s*=\s*\"([^\"]*)\"" % var, kbody)
-        if len(words) != 4:
-            raise Missing("%s: get_secure_channel_state: expected 4 assignments to `%s` (enforce, audit, else, no item), found %d" % (f, var, len(words)))
-        for tag, w in zip(("enforce", "audit", "other", "none"), words):
-            S("kk_word_%s_%s" % (var, tag), w, f)
-    S("kk_state_format_sep", regex_str(f, r"format!\(\"\{\}([^{}\"]*)\{\}\1\{\}\",\s*wireserver,\s*imds,\s*hostga\)", "state format string"), f)
+        for tag in ("enforce", "audit", "other", "none"):
+            kk_located("kk_word_%s_%s" % (var, tag), kk_words[1][var][tag] if kk_words else None,
+                       pinned_words[var] + pinned_modes[tag], f + " (get_secure_channel_state)")
+    kk_located("kk_state_format_sep", kk_words[0] if kk_words else None, " - ", f + " (get_secure_channel_state)")
     # serde field names of `pub struct Key`, in declaration (= serialisation) order
-    kstruct = strip_comments(regex_str(f, r"pub struct Key \{(.*?)\n\}", "struct Key"))
-    kfields = re.findall(r"^\s*(?:pub\s+)?(\w+)\s*:\s*([^,\n]+),", kstruct, flags=re.M)
-    if len(kfields) != 5 or [t.strip() for _, t in kfields] != ["String", "Option<u32>", "String", "String", "String"]:
+    mk_ = re.search(r"pub struct Key\s*\{(.*?)\n\}", ksrc, flags=re.S)
+    kfields = re.findall(r"^\s*(?:pub(?:\([^)]*\))?\s+)?(\w+)\s*:\s*([^,\n]+),", mk_.group(1), flags=re.M) if mk_ else []
+    if mk_ and (len(kfields) != 5 or [t.strip() for _, t in kfields] != ["String", "Option<u32>", "String", "String", "String"]):
         raise Missing("%s: struct Key is no longer (String, Option<u32>, String, String, String): %r" % (f, kfields))
-    for i, (n, _) in enumerate(kfields):
-        S("kk_key_field_%d" % i, n, f)
+    for i, dflt in enumerate(("authorizationScheme", "incarnationId", "guid", "issued", "key")):
+        kk_located("kk_key_field_%d" % i, kfields[i][0] if mk_ else None, dflt, f + " (struct Key)")
     f = "proxy_agent/src/key_keeper.rs"
-    S("kk_key_file_ext", regex_str(f, r"else\s*\{\s*key_file\.set_extension\(\"(\w+)\"\);\s*misc_helpers::json_write_to_file", "key file extension"), f)
+    exts = [e for e in re.findall(r"(?:set_extension|with_extension)\(\s*\"(\w+)\"\s*\)", strip_comments(src(f))) if e != "encrypted"]
+    exts += [e for e in re.findall(r"const\s+\w*EXT\w*\s*:\s*&(?:'static\s+)?str\s*=\s*\"(\w+)\"", strip_comments(src(f))) if e != "encrypted"]
+    kk_located("kk_key_file_ext", exts[0] if exts and len(set(exts)) == 1 else None, "key", f + " (store_local_key / fetch_local_key)")
     f = "proxy_agent_shared/src/misc_helpers.rs"
-    S("kk_temp_file_ext", regex_str(f, r"pub fn json_write_to_file.*?with_extension\(\"(\w+)\"\)", "temp file extension"), f)
+    msrc = strip_comments(src(f))
+    texts = re.findall(r"(?:set_extension|with_extension)\(\s*\"(\w+)\"\s*\)", msrc)
+    texts += re.findall(r"const\s+\w*(?:TEMP|TMP|STAGING)\w*\s*:\s*&(?:'static\s+)?str\s*=\s*\"\.?(\w+)\"", msrc)
+    kk_located("kk_temp_file_ext", texts[0] if texts and len(set(texts)) == 1 else None, "tmp", f + " (json_write_to_file)")
 
     # ---- setup tool paths and names (C17) ----
     f = "proxy_agent_setup/src/linux.rs"
@@ -415,6 +581,8 @@ def main():
     except Missing as e:
         print("gen_consts: MISSING: %s" % e, file=sys.stderr)
         return 2
+    for n in NOTES:
+        print("gen_consts: NOTE: %s" % n)
     out = os.path.normpath(OUT)
     os.makedirs(os.path.dirname(out), exist_ok=True)
     old = open(out).read() if os.path.exists(out) else None
